@@ -71,6 +71,8 @@ def make_extras(rng, spec, regs, n):
     gen.extra_class(spec, "KX")
     names = [c[0] for c in spec["classes"] if c[0] != "KX"]
     out = []
+    regs = [r for r in regs if spec["methods"][r[0]]["params"]
+            and spec["methods"][r[0]]["params"][0][1] != "kw"] or regs
     for i in range(n):
         src = spec["methods"][rng.choice(regs)[0]]
         params = json.loads(json.dumps(src["params"]))
@@ -189,7 +191,8 @@ def execute(scen):
     violation = None
     if vec != ref:
         i = next(i for i, (a, b) in enumerate(zip(vec, ref)) if a != b)
-        dims = [d for d in ("order", "regs", "extras") if cfg.get(d)]
+        # effective dimensions (an order configuration that permuted nothing does not count)
+        dims = [d for d in ("order", "regs", "extras") if cfg.get(d) and (d != "order" or applied)]
         violation = {"clause": "outcome changes with irrelevant context", "dims": dims,
                      "call_index": i, "call": fam["corpus"][i], "observed": vec[i],
                      "reference": ref[i], "symptom": symptom(vec[i], ref[i]),
@@ -425,30 +428,35 @@ def extra_covers(scen, v):
         fam, cfg = scen["family"], scen["config"]
         w = World(fam["spec"])
         c = v.get("call") or fam["corpus"][v["call_index"]]
-        args = [w.value(x) for x in c.get("args", [])]
-        kw = {k: w.value(x) for k, x in c.get("kw", {}).items()}
+        # every value the call can dispatch on: its arguments, their children (bodies recurse on
+        # them) and the literal arguments of call_next(<other value>) bodies
+        specs = []
+
+        def walk(x):
+            specs.append(x)
+            if x[0] == "n":
+                for k in x[3]:
+                    walk(k)
+
+        for x in list(c.get("args", [])) + list(c.get("kw", {}).values()):
+            walk(x)
+        for r in fam["regs"]:
+            b = fam["spec"]["methods"][r[0]]["body"]
+            if b[0] == "next_other":
+                walk(b[1])
+        vals = [w.value(x) for x in specs]
         for mid in cfg.get("extras") or []:
-            pos = 0
             for name, kind, ann, _ in fam["spec"]["methods"][mid]["params"]:
-                if kind == "kw":
-                    if name not in kw:
-                        continue
-                    val = kw[name]
-                else:
-                    if pos >= len(args):
-                        pos += 1
-                        continue
-                    val = args[pos]
-                    pos += 1
                 t = normalize_type(eval(ann_src(ann), w.mod.__dict__), None)
                 if t is object:
                     continue
-                for at in {type(val), subtler_type(val)}:
-                    try:
-                        if subclasscheck(at, t):
-                            return True
-                    except Exception:  # noqa: BLE001
-                        pass
+                for val in vals:
+                    for at in {type(val), subtler_type(val)}:
+                        try:
+                            if subclasscheck(at, t):
+                                return True
+                        except Exception:  # noqa: BLE001
+                            pass
         return False
     except Exception:  # noqa: BLE001
         return None
@@ -532,6 +540,10 @@ def shrink_moves(scen):
         c2["regs"] = None
         yield {"family": fam, "config": c2}
     o = cfg.get("order")
+    if o:
+        c2 = dict(cfg)
+        c2["order"] = None
+        yield {"family": fam, "config": c2}
     if o and "script" in o:
         sc = o["script"]
         if len(sc) > 3:
